@@ -179,6 +179,13 @@ func (txn *Txn[T]) CommitAndNotify() Tree[T] {
 // To close the watch channels call Notify(). You must call Notify() before
 // Tree.Txn().
 func (txn *Txn[T]) Commit() Tree[T] {
+	return txn.commit(true)
+}
+
+// commit the transaction. If [reuse] is true the transaction is stored in the
+// tree for the next Tree.Txn() to reuse and must not be used by the caller
+// anymore.
+func (txn *Txn[T]) commit(reuse bool) Tree[T] {
 	newRootWatch := txn.rootWatch
 	if txn.dirty {
 		newRootWatch = make(chan struct{})
@@ -194,8 +201,10 @@ func (txn *Txn[T]) Commit() Tree[T] {
 		prevTxn:   txn.prevTxn,
 		nextTxnID: txn.txnID,
 	}
-	// Store this txn in the tree to reuse the allocation next time.
-	t.prevTxn.Store(txn)
+	if reuse {
+		// Store this txn in the tree to reuse the allocation next time.
+		t.prevTxn.Store(txn)
+	}
 	return t
 }
 
